@@ -47,13 +47,17 @@
 
     //@ fn src:zvt/src/io.rs | impl PacketTransport<S> | write_packet_with_ack | $MODE props=C04,C05
         ensures
-    //@ tag io.writeack C05 C06
+    //@ tag io.writeack.command_once C05 C06
             // the command is written exactly once, first, and nothing else is written
             final(self).source.writes() == old(self).source.writes().push((msg.zs_spec(), old(self).source.consumed())),
+    //@ tag io.writeack.consumes_one_packet C04 C05
+            // success means: exactly the one packet at the head of the stream was consumed - its header plus the announced
+            // body, whatever it is - and that packet is a positive acknowledgement
             r is Ok ==> (apdu_total(old(self).source.inbox()) matches Some(tot)
                 && final(self).source.inbox() =~= old(self).source.inbox().skip(tot)
                 && final(self).source.consumed() == old(self).source.consumed() + tot
                 && Ack::parse_spec(old(self).source.inbox().take(tot)) is Some),
+    //@ tag io.writeack.not_ack_is_error C05 C06
             // anything but a positive acknowledgement is an error
             (apdu_total(old(self).source.inbox()) is None
                 || (apdu_total(old(self).source.inbox()) matches Some(tot) && Ack::parse_spec(old(self).source.inbox().take(tot)) is None))
